@@ -26,6 +26,20 @@ INVALID = [
     'int x = y;\n', 'int f(void) { return 1 +; }\n', 'struct s { int a; } v = { .b = 1 };\n', '#include <stdio.h>\n',
     'int f(void) { goto l; }\n', 'long double d = 1;\n', 'int a[-1];\n', 'char c = \'ab\';\n', '"unterminated\n',
     'int x = 1/0;\n', '[[foo(', 'void f(void) { switch (1) { case 1: case 1: ; } }\n',
+    # several violations of one kind that are found by walking a table: the one reported must not depend on addresses
+    'void f(int x) { if (x) goto zeta; if (x > 1) goto mid; goto alpha; }\n', 'void f(int x) { goto out; goto retry; goto fail; goto done; goto l1; goto l2; goto l3; }\n',
+    'static int s1(void); static int s2(void); static int s3(void); int f(void) { return s1() + s2() + s3(); }\nint x = y;\n',
+    'int a[]; int b[]; int c[]; struct u; struct u v1, v2;\n',
+]
+
+# valid units that make the emitter extend or patch buffers it got from realloc (zero-extension of string initialisers up to
+# a later designated element, strings patched by element designators, long literals): sensitive to the contents of fresh memory
+VALID_EXTRA = [
+    'struct { unsigned short s[8]; unsigned t[6]; int w[9]; char c[12]; } x = { .s = u"ab", .s[6] = 7, .t = U"a", .t[4] = 2, .w = L"abc", .w[7] = 1, .c = "q", .c[9] = 1 };\n',
+    'unsigned short a[12] = { u"x", [9] = 3 }; unsigned b[7] = { U"yz", [5] = 4, [6] = 5 }; char c[16] = { "ab", [10] = 122 }; int w[5] = { L"a", [3] = 9 };\n',
+    'struct p { char n[5]; unsigned short w[5]; } ps[3] = { [1].n = "a", [1].n[3] = 1, [2].w = u"b", [2].w[4] = 2, [0].w[1] = 3 };\n',
+    'char big[300] = { "' + 'x' * 100 + '", [250] = 1, [120] = 2 }; unsigned bigw[100] = { U"' + 'y' * 40 + '", [90] = 1, [60] = 2 };\n',
+    'void f(void) { static unsigned short s[9] = { u"ab", [7] = 1 }; static int t[6] = { L"a", [4] = 2 }; }\nint g __asm__("gee") = 1; extern int h __asm__("aitch"); int *ph = &h;\n',
 ]
 
 
@@ -66,6 +80,11 @@ def run(ctx):
             p = os.path.join(work, 'inv%d.c' % i)
             open(p, 'w').write(s)
             inputs.append((p, ['-t', 'x86_64-sysv']))
+        for i, s in enumerate(VALID_EXTRA):
+            for tgt in ('x86_64-sysv', 'aarch64'):
+                p = os.path.join(work, 'vx%d_%s.c' % (i, tgt.split('_')[0].split('-')[0]))     # one file per run: -o names derive from it
+                open(p, 'w').write(s)
+                inputs.append((p, ['-t', tgt]))
         # generated valid units (generator of C16) for variety
         try:
             import c16
@@ -137,7 +156,7 @@ def run(ctx):
             if r != b:
                 diffs.append(('hooks-on-build', r))
             # -o file
-            of = os.path.join(otherdir, hashlib.md5(path.encode()).hexdigest() + '.out')
+            of = os.path.join(otherdir, hashlib.md5((path + ' ' + ' '.join(args)).encode()).hexdigest() + '.out')     # per run, not per file: runs are parallel
             r = run_limited([exe] + args + ['-o', of, path], timeout=20, env=base_env, cwd=os.path.dirname(path)); n += 1
             got = open(of, 'rb').read() if os.path.exists(of) else b''
             if (r[0], got, r[2]) != (b[0], b[1], b[2]) or r[1] != b'':
